@@ -134,6 +134,22 @@ class Lock:
         self.fh.close()
 
 
+def _raise_stack():
+    """children (coqc on long list literals, coqchk) get the largest stack the hard limit allows: the default 8 MB soft limit
+    makes coqc die with `Stack overflow` on a case file holding a literal of several thousand numbers"""
+    try:
+        import resource
+        soft, hard = resource.getrlimit(resource.RLIMIT_STACK)
+        want = hard if hard != resource.RLIM_INFINITY else resource.RLIM_INFINITY
+        if soft != want:
+            resource.setrlimit(resource.RLIMIT_STACK, (want, hard))
+    except Exception:
+        pass
+
+
+_raise_stack()          # once, in the driver process: every child inherits it
+
+
 def sh(cmd, cwd=None, timeout=None, env=None, input_=None):
     e = dict(os.environ)
     e.update({"CARGO_NET_OFFLINE": "true"})
@@ -305,7 +321,7 @@ def run_harness(cases, profile="debug", timeout=900):
 # ------------------------------------------------------------------ model execution inside Coq
 
 CASE_HEADER = """From Coq Require Import ZArith List String.
-Require Import PP.FloatModel PP.Expr PP.FloatOps PP.Model.PwModel PP.Model.Run PP.Model.Extra PP.Model.Wire PP.Model.Hyp PP.Gen.Kernels PP.Proofs.QuarticFloat PP.Props.C09F PP.Props.C11F PP.Proofs.SplineFloat.
+Require Import PP.FloatModel PP.Expr PP.FloatOps PP.Model.PwModel PP.Model.Run PP.Model.Extra PP.Model.Wire PP.Model.Hyp PP.Gen.Kernels PP.Proofs.QuarticFloat PP.Proofs.QuarticClosedFloat PP.Props.C09F PP.Props.C11F PP.Proofs.SplineFloat.
 Import ListNotations.
 Open Scope Z_scope.
 Set Printing Width 100000000.
@@ -372,6 +388,14 @@ def run_coq_cases(terms, tag, shards=None, timeout=1200):
         aux = os.path.join(os.path.dirname(path), "." + os.path.basename(path)[:-2] + ".aux")
         if os.path.exists(aux):
             os.remove(aux)
+    missing = [i for i in range(n) if results[i] is None]
+    if logs and missing and shards != len(missing) and not tag.endswith("_solo"):
+        # a file that failed as a whole (resource limit on one term, say) took its neighbours with it: run the cases that have
+        # no result yet one per file, so that only the term that really cannot be evaluated stays without a result
+        sub, sublog = run_coq_cases([terms[i] for i in missing], tag + "_solo", shards=len(missing), timeout=timeout)
+        for i, r in zip(missing, sub):
+            results[i] = r
+        logs = [sublog] if sublog else []
     return results, "\n".join(logs)
 
 
